@@ -19,6 +19,7 @@ static int all_cfgs(cfg_t *cfgs, int max)
     int nc = 0;
     nc += cfgs_rs(cfgs + nc, max - nc, EC_BACKEND_LIBERASURECODE_RS_VAND, MO.thorough, MO.seed);
     nc += cfgs_xor(cfgs + nc, max - nc);
+    nc += cfgs_shss(cfgs + nc, max - nc);
     if (isal_ok) {
         nc += cfgs_rs(cfgs + nc, max - nc, EC_BACKEND_ISA_L_RS_VAND, 0, MO.seed + 1);
         nc += cfgs_rs(cfgs + nc, max - nc, EC_BACKEND_ISA_L_RS_CAUCHY, 0, MO.seed + 2);
